@@ -10,6 +10,16 @@ from tangermeme.ersatz import dinucleotide_shuffle
 POLY = {"sq": lambda self, z: z * z, "cube": lambda self, z: z * z * z - z}
 
 
+class CustomSq(torch.nn.Module):
+    def forward(self, z):
+        return z * z
+
+
+class CustomCube(torch.nn.Module):
+    def forward(self, z):
+        return z * z * z - z
+
+
 def build(case):
     mods = []
     patched = []
@@ -33,8 +43,12 @@ def build(case):
         elif k == "maxpool":
             m = torch.nn.MaxPool1d(l["size"], padding=l.get("pad", 0))
         elif k == "act":
-            cls = getattr(torch.nn, l["cls"])
             slope = l["slope"][0] / l["slope"][1]
+            if l["cls"] == "Custom":
+                m = CustomSq() if l["g"] == "sq" else CustomCube()
+                mods.append(m)
+                continue
+            cls = getattr(torch.nn, l["cls"])
             if l["g"] in POLY:
                 patched.append((cls, cls.forward))
                 cls.forward = POLY[l["g"]]
@@ -99,6 +113,9 @@ def handler(case):
             kw = dict(references=refs)
         else:
             kw = dict(references=dinucleotide_shuffle, n_shuffles=case["nref"], random_state=case["seed"])
+        if any(l["k"] == "act" and l["cls"] == "Custom" for l in case["layers"]):
+            from tangermeme.deep_lift_shap import _nonlinear
+            kw["additional_nonlinear_ops"] = {CustomSq: _nonlinear, CustomCube: _nonlinear}
         with warnings.catch_warnings(record=True) as wl:
             warnings.simplefilter("always")
             try:
